@@ -67,6 +67,11 @@ def plan(tier, seed):
         for dt in ("int64", "float32"):
             for fmt in ("txt", "csv"):
                 shards.append(("fixed-dtype", 0, mt, fmt, dt))
+    # the dataset handed over in Fortran order / as a transposed view
+    for mt in ("euclidean", "canberra"):
+        for lay in ("F", "T"):
+            for fmt in ("txt", "csv"):
+                shards.append(("fixed-layout", 0, mt, fmt, lay))
     return shards
 
 
@@ -78,7 +83,15 @@ def warm():
 
 def dataset(shard, seed):
     sc = [1.0, 0.5, 2.0, 3.0][seed % 4] if seed else 1.0
-    if shard[0] == "fixed-dtype":
+    if shard[0] == "fixed-layout":
+        _, fi, metric, fmt, lay = shard
+        X = np.array(FIXED[fi], dtype=float) * sc
+        if not is_norm(metric):
+            X = X + 0.5
+        LAYOUT[0] = lay
+        yield X.tolist(), FIXED_LABELS[fi], metric, fmt
+        LAYOUT[0] = None
+    elif shard[0] == "fixed-dtype":
         _, fi, metric, fmt, dt = shard
         X = np.array(FIXED[fi], dtype=float) * (2.0 if not seed else float(1 + seed % 3))
         if not is_norm(metric):
@@ -105,8 +118,17 @@ def dataset(shard, seed):
 DTYPE = [None]
 
 
-def as_data(prog_or_X, dt):
-    return np.array(prog_or_X, dtype=float).astype(np.dtype(dt) if dt else float)
+LAYOUT = [None]
+
+
+def as_data(prog_or_X, dt, lay=None):
+    X = np.array(prog_or_X, dtype=float).astype(np.dtype(dt) if dt else float)
+    lay = lay or LAYOUT[0]
+    if lay == "F":
+        X = np.asfortranarray(X)
+    elif lay == "T":
+        X = np.ascontiguousarray(X.T).T
+    return X
 
 
 def splits(N):
@@ -120,6 +142,8 @@ def model_programs(X, Y, metric, fmt):
     base = {"data": X, "labels": Y, "metric": metric, "fmt": fmt}
     if DTYPE[0]:
         base["dtype"] = DTYPE[0]
+    if LAYOUT[0]:
+        base["layout"] = LAYOUT[0]
     for train, test in splits(N):
         ylab = [Y[i] for i in train]
         if len(set(ylab)) >= 2:
@@ -147,10 +171,10 @@ def model_programs(X, Y, metric, fmt):
                 yield p
 
 
-def write_matrix(X, metric, fmt, tmpdir, dt=None):
+def write_matrix(X, metric, fmt, tmpdir, dt=None, lay=None):
     import opfython.math.general as g
     path = os.path.join(tmpdir, "dist_%s.%s" % (metric, fmt))
-    g.pre_compute_distance(as_data(X, dt), path, metric)
+    g.pre_compute_distance(as_data(X, dt, lay), path, metric)
     return path
 
 
@@ -166,7 +190,7 @@ def node_state(m):
 
 def build_pair(prog, path):
     import opfython.models as M
-    X = as_data(prog["data"], prog.get("dtype"))
+    X = as_data(prog["data"], prog.get("dtype"), prog.get("layout"))
     Y = np.array(prog["labels"], dtype=int)
     tr = np.array(prog["train"], dtype=int)
     te = np.array(prog["test"], dtype=int)
@@ -255,6 +279,40 @@ def distances_case(prog, res=None):
     return None
 
 
+def whole_file_case(prog, path, res=None):
+    """A model fitted on the WHOLE file in file order: get_distances(normalize=True) must not disturb
+    later calls (get_distances(), a re-fit)."""
+    import opfython.models as M
+    import opfython.math.distance as D
+    X = as_data(prog["data"], prog.get("dtype"), prog.get("layout"))
+    Y = np.array(prog["labels"], dtype=int)
+    N = len(X)
+    fn = D.DISTANCES[prog["metric"]]
+    want = np.array([[fn(X[a].copy(), X[b].copy()) for b in range(N)] for a in range(N)])
+    try:
+        for use_index in (True, False):
+            m = M.SupervisedOPF(distance=prog["metric"], pre_computed_distance=path)
+            kw = {"I_train": np.arange(N)} if use_index else {}
+            m.fit(X.copy(), Y.copy(), **kw)
+            s0 = node_state(m)
+            m.get_distances(normalize=True)
+            got = np.asarray(m.get_distances(), dtype=float)
+            if not np.array_equal(got, want):
+                return viol(prog, "after get_distances(normalize=True), get_distances() no longer returns the "
+                            "metric on the training pairs", "get_distances changed by an earlier normalised call")
+            m.fit(X.copy(), Y.copy(), **kw)
+            if node_state(m) != s0:
+                return viol(prog, "after get_distances(normalize=True) a re-fit of the file-fed model gives a "
+                            "different forest", "re-fit differs after get_distances(normalize=True)")
+            if res is not None:
+                res.transitions += 4
+    except Horizon:
+        raise
+    except Exception as ex:
+        return viol(prog, "whole-file history raised %r" % (ex,), "raised %s" % type(ex).__name__)
+    return None
+
+
 def viol(prog, prob, sym):
     site = "pre_compute_distance[.%s]" % prog["fmt"] if sym.startswith("raised") else prog["model"]
     return {"check": "pre-computed-vs-on-the-fly", "program": prog, "observed": prob,
@@ -277,6 +335,20 @@ def run(shard, seed):
                                            "raised %s (writing)" % type(ex).__name__))
                 break
             res.states += 1
+            wp = {"data": X, "labels": Y, "metric": metric, "fmt": fmt, "model": "SupervisedOPF",
+                  "train": list(range(len(X))), "test": [], "whole_file": True}
+            if DTYPE[0]:
+                wp["dtype"] = DTYPE[0]
+            if LAYOUT[0]:
+                wp["layout"] = LAYOUT[0]
+            if len(set(Y)) >= 2:
+                v = whole_file_case(wp, path, res)
+                res.evaluations += 1
+                res.traces += 1
+                if v:
+                    res.violations.append(v)
+                    if res.full:
+                        return res
             for prog in model_programs(X, Y, metric, fmt):
                 try:
                     with horizon(20.0):
@@ -308,10 +380,12 @@ def replay(case):
     tmpdir = tempfile.mkdtemp(prefix="c10-", dir=scratch_dir())
     try:
         try:
-            path = write_matrix(prog["data"], prog["metric"], prog["fmt"], tmpdir, prog.get("dtype"))
+            path = write_matrix(prog["data"], prog["metric"], prog["fmt"], tmpdir, prog.get("dtype"), prog.get("layout"))
         except Exception as ex:
             return viol(prog, "pre_compute_distance raised %r" % (ex,),
                         "raised %s (writing)" % type(ex).__name__)
+        if prog.get("whole_file"):
+            return whole_file_case(prog, path)
         v = compare_case(prog, path)
         if v is None and prog["model"] == "SupervisedOPF":
             v = distances_case(prog)
